@@ -89,63 +89,78 @@ func (f *ReverseBoltCursor) Seek(val []byte) {
 
 func NewTypedForwardBoltCursor(cursor *bbolt.Cursor, fieldType FieldType) ast.SeekableSetCursor {
 	result := &TypedForwardBoltCursor{
-		BaseBoltCursor: BaseBoltCursor{
-			cursor: cursor,
-			key:    nil,
+		TypedBoltCursor: TypedBoltCursor{
+			BaseBoltCursor: BaseBoltCursor{
+				cursor: cursor,
+				key:    nil,
+			},
+			fieldType: fieldType,
 		},
-		fieldType: fieldType,
 	}
 
-	key, _ := result.cursor.First()
-	_, result.key = GetTypeAndValue(key)
+	result.setTypedKey(result.cursor.First())
 
 	return result
 }
 
-type TypedForwardBoltCursor struct {
+// TypedBoltCursor holds the state shared by the typed cursors. The cursor's validity is tracked separately
+// from the current value, as the value of an element may be empty (the empty string is stored as a bare type tag)
+type TypedBoltCursor struct {
 	BaseBoltCursor
 	fieldType FieldType
+	valid     bool
+}
+
+func (f *TypedBoltCursor) setTypedKey(key []byte, _ []byte) {
+	f.valid = key != nil
+	_, f.key = GetTypeAndValue(key)
+}
+
+func (f *TypedBoltCursor) IsValid() bool {
+	return f.valid
+}
+
+type TypedForwardBoltCursor struct {
+	TypedBoltCursor
 }
 
 func (f *TypedForwardBoltCursor) Next() {
-	key, _ := f.cursor.Next()
-	_, f.key = GetTypeAndValue(key)
+	f.setTypedKey(f.cursor.Next())
 }
 
 func (f *TypedForwardBoltCursor) Seek(val []byte) {
 	searchVal := PrependFieldType(f.fieldType, val)
-	key, _ := f.cursor.Seek(searchVal)
-	_, f.key = GetTypeAndValue(key)
+	f.setTypedKey(f.cursor.Seek(searchVal))
 }
 
 func NewTypedReverseBoltCursor(cursor *bbolt.Cursor, fieldType FieldType) ast.SeekableSetCursor {
 	result := &TypedReverseBoltCursor{
-		BaseBoltCursor: BaseBoltCursor{
-			cursor: cursor,
-			key:    nil,
+		TypedBoltCursor: TypedBoltCursor{
+			BaseBoltCursor: BaseBoltCursor{
+				cursor: cursor,
+				key:    nil,
+			},
+			fieldType: fieldType,
 		},
-		fieldType: fieldType,
 	}
 
-	key, _ := result.cursor.Last()
-	_, result.key = GetTypeAndValue(key)
+	result.setTypedKey(result.cursor.Last())
 
 	return result
 }
 
 type TypedReverseBoltCursor struct {
-	BaseBoltCursor
-	fieldType FieldType
+	TypedBoltCursor
 }
 
 func (f *TypedReverseBoltCursor) Next() {
-	key, _ := f.cursor.Prev()
-	_, f.key = GetTypeAndValue(key)
+	f.setTypedKey(f.cursor.Prev())
 }
 
 func (f *TypedReverseBoltCursor) Seek(val []byte) {
 	searchVal := PrependFieldType(f.fieldType, val)
 	f.key, _ = f.cursor.Seek(searchVal)
+	f.valid = f.key != nil
 	if !bytes.Equal(searchVal, f.key) {
 		f.Next()
 	}
